@@ -47,6 +47,12 @@ TABLE = {
  "C01-c": ("C01", "meshgrid reverses ALL axes for indexing='xy' instead of swapping the first two: needs three or more coordinate arrays with 'xy' -> transposed shapes / wrong values"),
  "C17-c": ("C17", "the 'dropped axis must be a single chunk' check of make_blockwise_back_key_function only looks at the first array argument: needs map_blocks/blockwise with several arrays and drop_axis where a LATER argument has several chunks along the dropped axis -> accepted, then a task gets one block per chunk (TypeError mid-run or silently something else)"),
  "C14-c": ("C14", "the irregular planner rounds consolidated read chunks up to whole source chunks, checking memory per axis: needs two or more axes on which the read chunk reaches the write-chunk limit (below the axis length), write chunks not multiples of the source chunks, and headroom enough for each rounding alone but not for their product -> first copy chunk exceeds max_mem"),
+ "C05-d": ("C05", "_store_array's shard-mismatch test rewritten as a divisibility test the wrong way round (rechunk only if the shards are NOT a multiple of the source chunks): needs an existing sharded target, source chunks that are a proper divisor of the shards, no region -> several tasks read-modify-write one shard; concurrent tasks lose each other's inner chunks"),
+ "C08-d": ("C08", "ThreadsExecutor._async_execute_dag reads its options with `kwargs.pop(name, None) or default`: needs retries=0 reaching the real executor entry (executor option or compute kwarg) and a fault on a task's first attempt -> the task is retried (up to 3 attempts) although the budget allows one; an error that should surface is dropped"),
+ "C06-d": ("C06", "_random keeps one Generator(Philox()) per thread and re-keys it through the bit generator's state dictionary (key, counter, buffer_pos) without clearing the cached 32-bit half (has_uint32/uinteger): needs float32 random blocks with an ODD number of elements followed by another float32 block on the same worker, compared with another schedule (fresh process, other order, repetition) -> different values for the same block"),
+ "C15-d": ("C15", "the list/stream branch of apply_blockwise_key_func returns the predecessor key function's FunctionArgs without re-labelling it with the array name: needs a predecessor made by the two-op fuse() (which labelled with the fused-away intermediate array until fix 1edd166) fused again under a list/stream reader (simple_optimize_dag then multiple_inputs_optimize_dag + sum/concat) -> the fused function is skipped, raw blocks are passed. On the repaired tree the change is harmless"),
+ "C07-d": ("C07", "already_computed returns the verdict of the FIRST output only ('outputs are complete together'): needs a multi-output operation, an earlier run that died between the two chunk writes of one task, resume=True and a consumer of the later output -> the producer is skipped and the consumer reads fill values (same mechanism as C09-a, found independently for C07)"),
+ "C12-d": ("C12", "_partial_reduce skips reduce_func when initial_func is given ('already reduced'): needs a reduction whose `func` is a pre-processing map rather than a reduction (cubed.core.reduction(x, square, combine_func=sum)) and a group of exactly one block with extent > 1 on the reduced axis (numblocks % split_every == 1) -> the task writes an un-reduced block into a size-1 region; zarr truncates it silently"),
 }
 # seeds that were re-evaluated after strengthening: confirm.log holds the LATER run; what the first evaluation gave is recorded here
 FIRST = {
@@ -63,6 +69,9 @@ FIRST = {
  "C14-c": {"C14": {"exit": 0, "violation_lines": 0, "inconclusive": 1}},
  "C20-c": {"C20": {"exit": 0, "violation_lines": 0}},
  "C06-c": {"C06": {"exit": 0, "violation_lines": 0}},
+ "C06-d": {"C06": "exit 3 (harness-error: the key-recording RNG stub met `SInt >> int` in the seeded code; no VIOLATION line) -- a broken check, not a detection"},
+ "C15-d": {"C15": "not run before strengthening (no fusion tree had a predecessor made by the two-op fuse(): miss by inspection)"},
+ "C12-d": {"C12": "not run before strengthening (no scenario passes a user reduction whose func is a map: miss by inspection)"},
  "C15-c": {"C15": "not run before strengthening (the report named the blind spot: patterns used distinct array names; miss by construction)"},
  "C12-a": {"C12": "not run before strengthening (no scenario could reach the change: miss by inspection)"},
  "C19-a": {"C19": "not run before strengthening (miss by inspection)"},
